@@ -72,3 +72,11 @@ Definition socks_conflict (e : env) (l : list sock) : Prop :=
 Definition allows4 (f : family) : bool := match f with FamInet6 => false | _ => true end.
 Definition allows6 (f : family) : bool := match f with FamInet => false | _ => true end.
 Definition honours (ipv4 ipv6 : bool) (f : family) : Prop := allows4 f = ipv4 /\ allows6 f = ipv6.
+
+(* ---- host / port given without listen ---- *)
+(* the listen list is derived from host and port as soon as one of them is given *)
+Definition hostport_spec (host_is_default port_is_default : bool) : bool := negb (host_is_default && port_is_default).
+
+(* ---- asbool ---- *)
+(* t true y yes on 1 (sorted by code point) *)
+Definition spec_truthy : list str := [[49]; [111;110]; [116]; [116;114;117;101]; [121]; [121;101;115]].
